@@ -77,7 +77,7 @@ impl World for C39 {
     }
     fn budget(&self, tier: Tier) -> (u64, u64) {
         match tier {
-            Tier::Quick => (500, 45),
+            Tier::Quick => (1200, 45),
             Tier::Thorough => (20_000, 900),
         }
     }
